@@ -31,7 +31,7 @@ func CheckC03(c *Ctx) int {
 	o := RunScenarios(scs, ValidateSpec{KV: true, Bolt: true}, filepath.Join(c.WorkDir, "runs"), 14, 4, 10*time.Minute)
 	c.Absorb(o)
 	// the same concurrent drivers under the race detector
-	raceBin := filepath.Join(VerifRoot, "harness", "bin", "verif-race")
+	raceBin := filepath.Join(filepath.Dir(Self()), "verif-race")
 	races := 0
 	if _, err := os.Stat(raceBin); err == nil {
 		ChildBinary = raceBin
